@@ -637,6 +637,8 @@ def scenario_argv(sc):
             a += ["--output-format", fl["fmt"]]
         if fl.get("strict"):
             a += ["--strict"]
+        if fl.get("stats"):
+            a += ["--stats"]
         if fl.get("quiet"):
             a += ["--quiet"]
         if fl.get("outfile"):
@@ -737,8 +739,11 @@ def lib_accepts(lib, text, strict):
     return f["gosqlx_validate"]
 
 
+STDIN_MAX = 10 * 1024 * 1024
+
+
 def stdin_refused(t):
-    return t == "" or "\0" in t[:512]
+    return t == "" or "\0" in t[:512] or len(t.encode()) > STDIN_MAX
 
 
 def cq_input(kind, items, stdin_none=False):
@@ -1003,6 +1008,14 @@ def build_scenarios(tier, rng):
         for t in PCT:
             add("validate", "inline", [t.strip()], fmt=fmt)
             add("validate", "stdin", [t], fmt=fmt)
+    # piped input beyond the documented stdin limit is refused, never judged by a prefix of it (the prefix here is valid SQL)
+    big = "SELECT 1" + " " * STDIN_MAX + "\n"
+    for cmdn in ("validate", "format", "lint", "parse"):
+        add(cmdn, "stdin", [big])
+    # machine-readable reports stay well-formed whatever else is asked for (statistics)
+    for fmt in ("json", "sarif"):
+        add("validate", "files", [I[0], V[0]], fmt=fmt, stats=True)
+        add("validate", "stdin", [I[1]], fmt=fmt, stats=True)
     add("validate", "files", sets[4], fmt="xml")
     add("validate", "files", sets[4], fmt="json", outfile="rep.json")
     add("validate", "files", sets[4], fmt="sarif", outfile="rep.sarif")
